@@ -288,6 +288,79 @@ func instrument(path, dir string, stubs map[string]string) ([]byte, bool) {
 		return ok && id.Name == "time" && se.Sel.Name == "Sleep"
 	}
 
+	// detSelect expands a blocking select with >1 clauses into a priority
+	// pre-pass (one non-blocking select per clause, source order) followed by
+	// the original blocking select, so that the case taken when several are
+	// ready does not depend on the runtime's random choice.
+	// a select that is the last statement of a function body is its terminating
+	// statement: wrapping it would make the function end without a return
+	lastOfFunc := map[*ast.SelectStmt]bool{}
+	markLast := func(b *ast.BlockStmt) {
+		if b == nil || len(b.List) == 0 {
+			return
+		}
+		if ss, ok := b.List[len(b.List)-1].(*ast.SelectStmt); ok {
+			lastOfFunc[ss] = true
+		}
+	}
+	ast.Inspect(f, func(n ast.Node) bool {
+		switch v := n.(type) {
+		case *ast.FuncDecl:
+			markLast(v.Body)
+		case *ast.FuncLit:
+			markLast(v.Body)
+		}
+		return true
+	})
+	doneSel := map[*ast.SelectStmt]bool{}
+	detSelect := func(ss *ast.SelectStmt, tv *ast.Ident) []ast.Stmt {
+		if !features["detselect"] || len(ss.Body.List) < 2 || lastOfFunc[ss] {
+			return nil
+		}
+		// a select whose clauses all end in return may be the terminating
+		// statement of its function (possibly nested in a switch/if): keep it
+		allRet := true
+		for _, c := range ss.Body.List {
+			b := c.(*ast.CommClause).Body
+			if len(b) == 0 {
+				allRet = false
+				break
+			}
+			if _, ok := b[len(b)-1].(*ast.ReturnStmt); !ok {
+				allRet = false
+			}
+		}
+		if allRet {
+			return nil
+		}
+		doneSel[ss] = true
+		for _, c := range ss.Body.List {
+			// bodies with labels cannot be duplicated
+			hasLabel := false
+			ast.Inspect(c, func(n ast.Node) bool {
+				if _, ok := n.(*ast.LabeledStmt); ok {
+					hasLabel = true
+				}
+				return true
+			})
+			if hasLabel {
+				return nil
+			}
+		}
+		counter++
+		done := ast.NewIdent(fmt.Sprintf("vsel%d", counter))
+		out := []ast.Stmt{&ast.AssignStmt{Lhs: []ast.Expr{done}, Tok: token.DEFINE, Rhs: []ast.Expr{ast.NewIdent("false")}}}
+		for _, c := range ss.Body.List {
+			cc := c.(*ast.CommClause)
+			cp := cloneNode(fset, cc).(*ast.CommClause)
+			cp.Body = append([]ast.Stmt{&ast.AssignStmt{Lhs: []ast.Expr{done}, Tok: token.ASSIGN, Rhs: []ast.Expr{ast.NewIdent("true")}}}, cp.Body...)
+			sel1 := &ast.SelectStmt{Body: &ast.BlockStmt{List: []ast.Stmt{cp, &ast.CommClause{}}}}
+			out = append(out, &ast.IfStmt{Cond: &ast.UnaryExpr{Op: token.NOT, X: done}, Body: &ast.BlockStmt{List: []ast.Stmt{sel1}}})
+		}
+		out = append(out, &ast.IfStmt{Cond: &ast.UnaryExpr{Op: token.NOT, X: done}, Body: &ast.BlockStmt{List: []ast.Stmt{ss}}})
+		_ = tv
+		return out
+	}
 	var rewriteList func(list []ast.Stmt) []ast.Stmt
 	rewriteStmt := func(s ast.Stmt) ([]ast.Stmt, bool) {
 		switch v := s.(type) {
@@ -344,13 +417,25 @@ func instrument(path, dir string, stubs map[string]string) ([]byte, bool) {
 			}
 			fl := &ast.FuncLit{Type: &ast.FuncType{Params: &ast.FieldList{}},
 				Body: &ast.BlockStmt{List: []ast.Stmt{&ast.ExprStmt{X: inner}}}}
-			goCall := &ast.ExprStmt{X: &ast.CallExpr{Fun: sel("Go"), Args: []ast.Expr{lit(pos(v)), fl}}}
+			var fb strings.Builder
+			format.Node(&fb, fset, call.Fun)
+			fname := fb.String()
+			if _, isLit := call.Fun.(*ast.FuncLit); isLit || len(fname) > 40 {
+				fname = "func"
+			}
+			// enclosing function, e.g. "Dispose:func"
+			for _, d := range f.Decls {
+				if fd, ok := d.(*ast.FuncDecl); ok && fd.Pos() <= v.Pos() && v.Pos() < fd.End() {
+					fname = fd.Name.Name + ":" + fname
+				}
+			}
+			goCall := &ast.ExprStmt{X: &ast.CallExpr{Fun: sel("Go"), Args: []ast.Expr{lit(pos(v) + " " + fname), fl}}}
 			if len(pre) == 0 {
 				return []ast.Stmt{goCall}, true
 			}
 			return []ast.Stmt{&ast.BlockStmt{List: append(pre, goCall)}}, true
 		case *ast.SelectStmt:
-			if !features["chan"] {
+			if !features["chan"] || doneSel[v] {
 				return nil, false
 			}
 			hasDefault := false
@@ -366,6 +451,9 @@ func instrument(path, dir string, stubs map[string]string) ([]byte, bool) {
 			for _, c := range v.Body.List {
 				cc := c.(*ast.CommClause)
 				cc.Body = append([]ast.Stmt{after(tv, pos(cc))}, cc.Body...)
+			}
+			if ds := detSelect(v, tv); ds != nil {
+				return append([]ast.Stmt{before(tv)}, ds...), true
 			}
 			return []ast.Stmt{before(tv), s}, true
 		case *ast.SendStmt:
@@ -563,6 +651,23 @@ func rewriteMapRange(v *ast.RangeStmt, label string, sel func(string) ast.Expr) 
 			&ast.BasicLit{Kind: token.STRING, Value: strconv.Quote(label)}, mv}},
 		Body: body}
 	return []ast.Stmt{&ast.BlockStmt{List: []ast.Stmt{decl, loop}}}
+}
+
+// cloneNode deep-copies a comm clause by printing and re-parsing it.
+func cloneNode(fset *token.FileSet, n ast.Node) ast.Node {
+	var sb strings.Builder
+	if err := format.Node(&sb, fset, n); err != nil {
+		fail("clone: %v", err)
+	}
+	src := "package p\nfunc _() {\nselect {\n" + sb.String() + "\n}\n}"
+	f, err := parser.ParseFile(token.NewFileSet(), "clone.go", src, 0)
+	if err != nil {
+		fail("clone parse: %v\n%s", err, src)
+	}
+	cc := f.Decls[0].(*ast.FuncDecl).Body.List[0].(*ast.SelectStmt).Body.List[0]
+	// drop positions so the printer lays the copy out afresh
+	ast.Inspect(cc, func(x ast.Node) bool { return true })
+	return cc
 }
 
 func stripPos(n ast.Node) {
